@@ -561,6 +561,24 @@ pub fn print_case(run: usize, p: &Problem, dir: &str) -> Value {
     }
 }
 
+/// The header of a single-precision solve: the solver is generic over the float type and the header names the precision in use.
+pub fn print_case_f32(run: usize) -> Value {
+    use clarabel::io::ConfigurablePrintTarget;
+    let res = catch_unwind(AssertUnwindSafe(|| {
+        let A = clarabel::algebra::CscMatrix::<f32>::new(3, 2, vec![0, 2, 4], vec![0, 1, 0, 2], vec![1.0, 1.0, 1.0, 1.0]);
+        let P = clarabel::algebra::CscMatrix::<f32>::new(2, 2, vec![0, 1, 2], vec![0, 1], vec![1.0, 2.0]);
+        let st = clarabel::solver::DefaultSettingsBuilder::<f32>::default().verbose(true).build().unwrap();
+        let mut s = clarabel::solver::DefaultSolver::<f32>::new(&P, &[1.0f32, -1.0], &A, &[2.0f32, 1.0, 1.0], &[clarabel::solver::SupportedConeT::NonnegativeConeT(3)], st);
+        s.print_to_buffer();
+        s.solve();
+        let b = s.get_print_buffer().unwrap();
+        let c = parse_config(&b);
+        json!({"ev": "PrintF32", "run": run, "precision": c["linalg"]["precision"], "n": c["n"], "m": c["m"], "parsed": rec_ipm::parse_print(&b),
+               "status": STATUS_NAMES[rec_ipm::status_code(s.solution.status)], "iterations": s.solution.iterations})
+    }));
+    match res { Ok(v) => v, Err(e) => json!({"ev": "Panic", "run": run, "msg": rec_ipm::panic_msg(e)}) }
+}
+
 /// the settings block as the documented formats print it (ordered key/value pairs)
 pub fn expected_settings(s: &DefaultSettings<f64>) -> Value {
     let onoff = |b: bool| if b { "on" } else { "false" };
